@@ -28,6 +28,11 @@ def _tree(draw, syms, budget):
         return ["*", ["*", r]]
     if k == 10:
         return ["*", ["+", ["1"], r]]
+    if draw(st.booleans()):
+        # structurally related summands / factors: r+r, r.s + s.r, (r+s)+(s+r), r.s + r.s
+        s2 = _tree(draw, syms, max(1, budget // 2))
+        return draw(st.sampled_from([["+", r, r], ["+", [".", r, s2], [".", s2, r]], ["+", ["+", r, s2], ["+", s2, r]],
+                                     ["+", [".", r, s2], [".", r, s2]], [".", ["+", r, s2], ["+", s2, r]]]))
     return draw(st.sampled_from([[".", r, ["0"]], ["+", ["*", ["0"]], r], [".", ["1"], r], [".", ["0"], r]]))
 
 
